@@ -88,7 +88,10 @@ class Translate(Domain):
         # domain_bounds are in shape [x_min, x_max, y_min, y_max, ...]
         # both min and max have to be shifted by the same value
         new_bounds = domain_bounds + translation_values
-        return new_bounds
+        # for at most one row of parameters return the flat form
+        # [x_min, x_max, y_min, y_max, ...] that all consumers index (unions,
+        # normalization layer, lhs-sampler); for several rows: one box per row.
+        return new_bounds.squeeze(0)
 
     @property
     def boundary(self):
